@@ -117,7 +117,8 @@ func readExifHeader(b *box, firstIfd ifds.IfdType, it imagetype.ImageType) (head
 	if logLevelInfo() {
 		logInfo().Object("box", b).Object("header", header).Send()
 	}
-	_, err = b.Discard(8)
+	// the decoder handed this header starts at the first directory
+	_, err = b.Discard(int(header.FirstIfdOffset))
 	return header, err
 }
 
